@@ -14,6 +14,13 @@ Typed ==
   \cup { <<"vec_i32", <<"arr", a>>>> : a \in { <<>>, <<XU(1), XU(-3), XU(40000)>> } }
   \cup { <<"vec_str", <<"arr", <<XS(<<34, 208, 159>>), XS(<<120>>)>>>>>>,
          <<"map_str_i32", <<"map", <<<<XS(<<97>>), XU(1)>>, <<XS(<<208, 159>>), XU(300)>>>>>>>> }
+  \* further std types (serialized like a base type, see LoadScript!TypeAlias)
+  \cup { <<"opt_i32", XU(5)>>, <<"uptr_i32", XU(-3)>>, <<"atomic_i32", XU(100)>>, <<"sptr_str", XS(<<120, 121>>)>>, <<"wstr", XS(<<208, 159, 120>>)>>,
+         <<"enum_color", XS(<<71, 114, 101, 101, 110>>)>>, <<"enum_color", XS(<<66, 108, 117, 101>>)>>,
+         <<"set_i32", <<"arr", <<XU(-3), XU(1), XU(40)>>>>>>, <<"arr3_i32", <<"arr", <<XU(1), XU(2), XU(3)>>>>>>, <<"deque_i32", <<"arr", <<XU(7), XU(-1)>>>>>>,
+         <<"list_str", <<"arr", <<XS(<<120>>), XS(<<121, 122>>)>>>>>>,
+         <<"pair_str_i32", <<"map", <<<<XS(<<107, 101, 121>>), XS(<<107>>)>>, <<XS(<<118, 97, 108, 117, 101>>), XU(9)>>>>>>>>,
+         <<"tuple_i32_str_f64", <<"arr", <<XU(1), XS(<<113>>), <<"f64", <<63, 248, 0, 0, 0, 0, 0, 0>>>>>>>>>> }
 ReqOp(key, tv) == [op |-> "req", ks |-> key, t |-> tv[1], v |-> tv[2]]
 ElemOp(tv) == [op |-> "elem", t |-> tv[1], v |-> tv[2]]
 Opts == { [fmt |-> FALSE, padChar |-> 32, padNum |-> 0, enc |-> "utf8", bom |-> FALSE],
